@@ -7,7 +7,7 @@ same point - for generic points and for the special positions where a naive form
 spherical reference systems).  Bounded (float): rbgeom_uset / rbcoords / formrbe3 on generated USET tables against an independent
 geometric oracle, with grids placed at the special angles.
 """
-import contextlib, io, ast, hashlib, itertools, json, os, sys, time, traceback
+import contextlib, io, warnings, ast, hashlib, itertools, json, os, sys, time, traceback
 from types import SimpleNamespace
 import numpy as np
 import sympy as sp
@@ -434,12 +434,17 @@ def rbe3_bounded(seed, n_it):
             uset = n2p.addgrid(uset, 99, "b", 0, rng.randn(3), 0)
         wts = [float(rng.uniform(0.3, 2.5)) for _ in range(ng)]
         ind = []
+        order_ = [int(x) for x in rng.permutation(ng)]           # every independent grid once (listed in an order unrelated to the table order on odd iterations)
         for k in range(ng):
-            ind += [[123 if rng.rand() < 0.6 else 123456, wts[k]], ids[(k * 2) % ng] if it % 2 else 10 + k]
+            ind += [[123 if rng.rand() < 0.6 else 123456, wts[k]], ids[order_[k]] if it % 2 else 10 + k]
         try:
-            rbe3 = n2p.formrbe3(uset, 99, 123456, ind)
+            with warnings.catch_warnings(record=True) as wlist:
+                warnings.simplefilter("always")
+                rbe3 = n2p.formrbe3(uset, 99, 123456, ind)
         except Exception as ex:
             continue
+        if any("condition" in str(w_.message).lower() for w_ in wlist):
+            continue                                              # nearly collinear independent grids: formrbe3 itself says the result is inaccurate
         ev += 1
         rb = n2p.rbgeom_uset(uset, [0, 0, 0])
         dep = uset.index.get_locs([99])
